@@ -12,3 +12,17 @@ package common
 //@     invariant even: i % 2 == 0 && 0 <= i
 //@ func StripNull(s string) (r string)
 //@   pure
+
+// C13: working hours are packed as 1<<22 | startHour<<17 | startMin<<11 | endHour<<6 | endMin
+// (the Demon unpacks with the same shifts), every field inside its bit width,
+// the end after the start; the empty string means "not configured" (0).
+//@ func ParseWorkingHours(WorkingHours string) (w int32, err error)
+//@   ensures empty: WorkingHours == "" ==> (w == 0 && err == nil)
+//@   ensures pack:  (err == nil && WorkingHours != "") ==> w == 4194304 + startHour*131072 + startMin*2048 + endHour*64 + endMin
+//@   ensures valid: (err == nil && WorkingHours != "") ==> (0 <= startHour && startHour <= 24 && 0 <= endHour && endHour <= 24 && 0 <= startMin && startMin <= 60 && 0 <= endMin && endMin <= 60 && (endHour > startHour || (endHour == startHour && endMin > startMin)))
+//@   ensures zeroerr: err != nil ==> w == 0
+
+//@ func EncodeUTF16(s string) (r []byte)
+//@   ensures fresh: len(r) == 0 || fresh(arrayof(r))
+//@ func EncodeUTF8(s string) (r []byte)
+//@   ensures fresh: len(r) == 0 || fresh(arrayof(r))
